@@ -1,14 +1,26 @@
 #!/bin/sh
-# Extract the Gallina models and build the driver binary extract/spmodel.
+# Extract the Gallina models and build the driver binary.
+#   ./build.sh          -> extract/spmodel        (all domains: Extract/AllModels.v, every drv_*.ml)
+#   ./build.sh Card     -> extract/spmodel_Card   (Extract/RootsCard.v + drv_card.ml only)
+# The .vo files of the roots must be up to date (make, or coqc by hand).
 set -e
 cd "$(dirname "$0")"
-rm -rf gen && mkdir gen && cd gen
-cp ../../coq/extract/ExtractAll.v .
+DOM="$1"
+if [ -z "$DOM" ]; then ROOT=AllModels; GEN=gen; OUT=spmodel; DRV="../drv_*.ml";
+else ROOT=Roots$DOM; GEN=gen_$DOM; OUT=spmodel_$DOM; DRV="../drv_$(echo $DOM | tr A-Z a-z).ml"; fi
+rm -rf $GEN && mkdir $GEN && cd $GEN
+cat > ExtractAll.v <<EOV
+From Coq Require Import ExtrOcamlBasic ExtrOcamlString.
+From SP Require Extract.$ROOT.
+Extraction Language OCaml.
+Set Warnings "-extraction-opaque-accessed".
+Separate Extraction SP.Extract.$ROOT.roots.
+EOV
 timeout 600 coqc -Q ../../coq/theories SP ExtractAll.v
-rm -f ExtractAll.*
-cp ../wire.ml ../drv_*.ml ../main.ml .
+rm -f ExtractAll.* .ExtractAll.aux
+cp ../wire.ml ../main.ml $DRV .
 EXTR=$(ls *.ml | grep -v -e '^wire.ml$' -e '^drv_' -e '^main.ml$')
 ORDER=$(ocamlfind ocamldep -sort $(ls *.mli) $EXTR)
-timeout 900 ocamlfind ocamlopt -w -a -O2 $ORDER wire.ml drv_*.ml main.ml -o ../spmodel 2>&1 || \
-timeout 900 ocamlfind ocamlopt -w -a $ORDER wire.ml drv_*.ml main.ml -o ../spmodel
-echo "built extract/spmodel"
+timeout 900 ocamlfind ocamlopt -w -a -O2 $ORDER wire.ml drv_*.ml main.ml -o ../$OUT 2>/dev/null || \
+timeout 900 ocamlfind ocamlopt -w -a $ORDER wire.ml drv_*.ml main.ml -o ../$OUT
+echo "built extract/$OUT"
